@@ -2,6 +2,8 @@ import VrlModel.Wire
 import VrlModel.KindWire
 import VrlModel.KindSpec
 import VrlModel.Arith
+import VrlModel.Lang.Parse
+import VrlModel.Lang.TypeSpec
 
 /-! Oracles of C01 / C02 / C12 on the implementation's own type information (harness/src/typed.rs):
     the Spec predicates (`Spec.memR`, `Spec.mem`) are evaluated on the values the implementation
@@ -32,27 +34,49 @@ def parseSteps : List String → Option (List Step)
     pure (⟨kind, f == "1", const, out, val⟩ :: tl)
   | _ => none
 
-/-- the primary syntactic feature of the source, used only to NAME the finding class of a failure
-    (the failure itself is decided by the Spec predicate): the first that applies, in this order. -/
-def features (src : String) : String :=
-  let has (p : String) : Bool := (src.splitOn p).length > 1
-  if has "map_keys(" then "D_map_keys_type_def"          -- map_keys keeps the input's known fields
-  else if has "-> |" then "D_closure_effects_ignored"    -- effects of closure bodies never reach the caller's type state
-  else if has "del(" then "D_del_typing"                 -- type-level removal (C19 classes, variables not updated)
-  else if has "[-" then "D_negative_index_kind"          -- type-level insert/get at negative indices (C19 classes)
-  else if has "return" then "D_return_skips_effects"     -- final type state assumes the whole program ran
-  else if has "|=" || has " | " then "D_merge_kind"      -- Collection::merge (C19 D_merge_overwrite_maybe_absent)
-  else "-"
+/-- does the compiled tree contain a call of `name` / a closure? -/
+def hasCall (dump : String) (name : String) : Bool := (dump.splitOn ("(call " ++ name ++ " ")).length > 1
+def hasClosure (dump : String) : Bool := (dump.splitOn "(closure ").length > 1
+def hasAnyCall (dump : String) : Bool :=
+  -- `del` / `exists` on queries are modelled (they are not calls of the model's tree)
+  ((dump.splitOn "(call ").filter fun part =>
+    !(part.startsWith "del 0 " || part.startsWith "exists 0 ")).length > 1
+
+/-- NAME of the finding class of an oracle failure (the failure itself is decided by the Spec
+    predicate). Decided from the compiled tree:
+    * programs inside the model of the type inference (no function call): the side condition of the
+      soundness theorem (`Lang.checks`) that fails among the root expressions that ran, the most
+      specific one (`Chk.priority`) when several fail — `-` when none fails, i.e. when the theorem
+      applies and the failure contradicts it (a VIOLATION);
+    * programs with function calls (outside the model): `map_keys` → `D_map_keys_type_def`, closure →
+      `D_closure_effects_ignored`, otherwise the failed typing side condition met while typing the tree
+      with calls taken as opaque, `D_call_typing` if none. -/
+def features (dump : String) (T0 : Lang.TState) (upTo : Nat) : String :=
+  match Lang.Parse.program dump with
+  | none => "-"
+  | some prog =>
+    let failed := ((Lang.rootChecks prog T0).take upTo).flatten
+    if !hasAnyCall dump then
+      match Lang.pickClass failed with
+      | some c => c.name
+      | none => "-"
+    else if hasCall dump "map_keys" then "D_map_keys_type_def"
+    else if hasClosure dump then "D_closure_effects_ignored"
+    else
+      match Lang.pickClass (failed.filter fun c => c != Lang.Chk.outOfModel && c != Lang.Chk.structural) with
+      | some c => c.name
+      | none => "D_call_typing"
 
 def srcOfHex (h : String) : String :=
   match bytesOfHex h with
   | some bs => String.fromUTF8! (ByteArray.mk (bs.map (·.toUInt8)).toArray)
   | none => ""
 
-def handle (op : String) (args : List String) : Option String :=
-  match op, args with
-  | _, src :: _event :: _meta :: "|" :: resK :: retK :: tgtK :: metaK :: flags :: outcome :: ev :: md :: _n :: stepFields =>
-    if !(op == "o.c01" || op == "o.c02" || op == "o.c12") then none else do
+def anyObject : Kind := Kind.ofObject Col.any
+
+def judge (op : String) (T0 : Lang.TState) (rest : List String) : Option String :=
+  match rest with
+  | dump :: resK :: retK :: tgtK :: metaK :: flags :: outcome :: ev :: md :: _n :: stepFields => do
     let resK ← KindWire.kindOfString resK
     let retK ← KindWire.kindOfString retK
     let tgtK ← KindWire.kindOfString tgtK
@@ -61,7 +85,11 @@ def handle (op : String) (args : List String) : Option String :=
     let md ← valueOfString md
     let steps ← parseSteps stepFields
     let (out, val) := parseOut outcome
-    let feat := features (srcOfHex src)
+    -- the class is the first failed side condition among the root expressions that ran
+    let feat := features dump T0 steps.length
+    let featAt (i : Nat) := features dump T0 (i + 1)
+    -- the final type state assumes the whole program ran: after a `return` nothing is known
+    let featEnd := if out == "ret" then "D_return_skips_effects" else feat
     let fl := flags.toList
     let progFallible := fl[0]? == some '1'
     let progAbortable := fl[1]? == some '1'
@@ -70,31 +98,45 @@ def handle (op : String) (args : List String) : Option String :=
     if out == "panic" then pure "holds" else     -- panics belong to C04
     if op == "o.c01" then
       -- every root expression's value belongs to the kind assigned to it
-      match steps.find? (fun st => st.out == "ok" && !(match st.val with | some v => Spec.memR v st.kind | none => true)) with
-      | some _ => pure ("fails step_value:" ++ feat)
+      match steps.findIdx? (fun st => st.out == "ok" && !(match st.val with | some v => Spec.memR v st.kind | none => true)) with
+      | some i => pure ("fails step_value:" ++ featAt i)
       | none =>
         if out == "ok" && !(match val with | some v => Spec.memR v resK | none => true) then pure ("fails result:" ++ feat)
         else if out == "ret" && !(match val with | some v => Spec.memR v retK | none => true) then pure ("fails returns:" ++ feat)
-        else if (out == "ok" || out == "ret") && !Spec.mem ev tgtK then pure ("fails event:" ++ feat)
-        else if (out == "ok" || out == "ret") && !Spec.mem md metaK then pure ("fails metadata:" ++ feat)
+        else if (out == "ok" || out == "ret") && !Spec.mem ev tgtK then pure ("fails event:" ++ featEnd)
+        else if (out == "ok" || out == "ret") && !Spec.mem md metaK then pure ("fails metadata:" ++ featEnd)
         else pure "holds"
     else if op == "o.c02" then
       -- an expression typed infallible never raises an error (NaN excepted); a program without `!`
       -- and `abort` never fails; non-fallible / non-abortable programs never error / abort
-      match steps.find? (fun st => !st.fallible && st.out == "err") with
-      | some _ => pure ("fails infallible_expr:" ++ feat)
+      match steps.findIdx? (fun st => !st.fallible && st.out == "err") with
+      | some i => pure ("fails infallible_expr:" ++ featAt i)
       | none =>
         if !hasBang && !hasAbort && (out == "err" || out == "abort") then pure ("fails program:" ++ feat)
         else if !progFallible && out == "err" then pure ("fails info_fallible:" ++ feat)
         else if !progAbortable && out == "abort" then pure ("fails info_abortable:" ++ feat)
         else pure "holds"
     else
-      -- a root expression with a compile-time constant evaluates to that constant
-      match steps.find? (fun st => st.out == "ok" && (match st.const, st.val with
-          | some c, some v => !(Arith.veq c v)
+      -- a root expression with a compile-time constant evaluates to exactly that constant
+      match steps.findIdx? (fun st => st.out == "ok" && (match st.const, st.val with
+          | some c, some v => !(c == v)
           | _, _ => false)) with
-      | some _ => pure ("fails constant:" ++ feat)
+      | some i => pure ("fails constant:" ++ featAt i)
       | none => pure "holds"
+  | _ => none
+
+def handle (op : String) (args : List String) : Option String :=
+  match op, args with
+  | _, _src :: _event :: _meta :: "|" :: rest =>
+    if op == "o.c01" || op == "o.c02" || op == "o.c12" then
+      judge op { target := anyObject, metadata := anyObject } rest
+    else none
+  | _, _src :: tk :: mk :: _event :: _meta :: "|" :: rest =>
+    if op == "o.c01.env" || op == "o.c02.env" || op == "o.c12.env" then do
+      let target ← KindWire.kindOfString tk
+      let metadata ← KindWire.kindOfString mk
+      judge ((op.splitOn ".env").headD op) { target, metadata } rest
+    else none
   | _, _ => none
 
 end Driver.Typed
